@@ -113,6 +113,16 @@ def as_ref(se, env, pc, r):
     raise Inconclusive('as_ref on %r' % (v,))
 
 
+def opt_insert(se, env, pc, r, v):
+    se.store(env, r, Enum('Some', (v,)))
+    b = base_ref(se, env, r)
+    return one(env, Ref(b.local, b.path + (0,)))
+
+
+def opt_replace(se, env, pc, r, v):
+    old = se.deref(env, r); se.store(env, r, Enum('Some', (v,))); return one(env, old)
+
+
 def opt_take(se, env, pc, r):
     v = se.deref(env, r); se.store(env, r, Enum('None')); return one(env, v)
 
@@ -357,6 +367,8 @@ def std_summaries():
     P[r'Option::(?:as_ref|as_mut)'] = as_ref
     P[r'Option::map'] = opt_map
     P[r'Option::take'] = opt_take
+    P[r'Option::insert'] = opt_insert
+    P[r'Option::replace'] = opt_replace
     P[r'Result::map_err'] = res_map_err
     P[r'Option::cloned'] = lambda se, env, pc, o: one(env, Enum('Some', (se.deref(env, o.fields[0]),)) if o.tag == 'Some' else o)
     # Vec / slice
